@@ -284,15 +284,20 @@ def gen_instance(iid, rng, n, nu, nd, kind, *, uniform=False, pairs=True, spin_m
                 continue
             w0 = ok[0]
             lo, wmax, big, ndead = scout_tree(C, wu, wd, mu, md, p, q, w0)
-        if attempt < tries - 1 and (free != bool(want_free) or (want_free and big >= 1 << 28)
-                                    or (want == "dead" and (ndead == 0 or big >= 1 << 28))):
-            continue
+        wanted = not (free != bool(want_free) or (want_free and big >= 1 << 28)
+                      or (want == "dead" and (ndead == 0 or big >= 1 << 28)))
+        if not wanted and (best is not None or attempt < tries - 1):
+            if best is not None or attempt % 20:
+                continue            # keep an occasional fallback candidate in case the wanted kind never shows up
         js = {"id": iid, "n": n, "nu": nu, "nd": nd, "c": rmat(C), "wu": rmat(wu), "wd": rmat(wd), "w0": rq(w0),
               "mu": rmat(mu), "md": rmat(md), "hs": [rq(p), rq(q)], "cset": [[rq(a), rq(b)] for a, b in CSET],
               "pairs": bool(pairs), "lat": lat, "adj": adj.tolist()}
         best = {"id": iid, "n": n, "nu": nu, "nd": nd, "kind": kind, "uniform": uni, "C": C, "wu": wu, "wd": wd,
                 "mu": mu, "md": md, "p": p, "q": q, "w0": w0, "lat": lat, "adj": adj, "pairs": bool(pairs),
                 "want": want, "json": js}
+        if wanted:
+            return best
+    if best is not None:
         return best
     raise MachineryError("could not draw an instance with non-zero overlap")
 
